@@ -6,7 +6,7 @@ import time
 
 from hypothesis import strategies as st
 
-from .. import env, harness, runner, scenario as sc, wire
+from .. import common, env, harness, runner, scenario as sc, wire
 from ..harness import Violation
 
 ID = "C03"
@@ -32,7 +32,8 @@ def frag_cases(draw):
 
 
 def summarize(out):
-    return [r if "exc" not in r else {"exc": r["exc"]} for r in out.results]
+    # type-strict: a payload that is `bytes` when it arrived in one read must not become `bytearray` when it arrived in two
+    return [common.typed(r) if "exc" not in r else {"exc": r["exc"]} for r in out.results]
 
 
 def check_frag(case):
